@@ -527,7 +527,13 @@ class PSBaseParser:
                 # If we hit EOF in the middle of a token, try to parse
                 # it by tacking on whitespace, and delay raising PSEOF
                 # until next time around
-                self.charpos = self._parse1(b"\n", 0)
+                # A scanner may hand over to the next one without consuming
+                # the byte (a name ending in a #xx escape, for one), so feed
+                # the newline until it is consumed.
+                charpos = 0
+                while charpos == 0:
+                    charpos = self._parse1(b"\n", 0)
+                self.charpos = charpos
                 self.eof = True
                 # Oh, so there wasn't actually a token there? OK.
                 if not self._tokens:
